@@ -182,7 +182,8 @@ def toNear (cfg : SqlCfg) : Nat → Ops → Option (List String) → M Near
     let subusing := n.cols.filter (fun c => su.contains c)
     let sub ← toNear cfg fuel src (some subusing)
     let i ← fresh
-    let terms : Option Terms := if using?.isNone then none else mkTerms (subusing.map (fun k => (k, STerm.pass)))
+    -- after fix 1805022 the columns are always named (before: `SELECT *` when `using` was None)
+    let terms : Option Terms := mkTerms (subusing.map (fun k => (k, STerm.pass)))
     return .unary s!"order_rows_{i}" terms false sub (some subusing)
       (if cs.isEmpty && limit.isNone then .none else .orderBy cs reverse limit) false none
       (some ("order(" ++ renderOps n ++ ")"))
